@@ -2,7 +2,7 @@
    [vcmp] is the component-wise, lexicographic comparison the library derives for nested values; [isort] the reference
    stable sort the interpreter's sort / order-statistic functions are compared with. *)
 From Coq Require Import List ZArith NArith Bool Permutation Sorted.
-From Xr Require Import Ord.Derived Ord.DerivedProofs Ord.Pad.
+From Xr Require Import Ord.Derived Ord.DerivedProofs Ord.Pad Ord.TimSort Ord.TimSortProofs.
 Import ListNotations.
 
 Theorem C19_cmp_consistent_with_eq : forall a b, vcmp a b = Eq <-> a = b.
@@ -25,6 +25,15 @@ Theorem C19_sort_is_stable : forall (A : Type) (le : A -> A -> bool),
   (forall a b, le a b = true \/ le b a = true) -> (forall a b c, le a b = true -> le b c = true -> le a c = true) ->
   forall l x, filter (equiv le x) (isort le l) = filter (equiv le x) l.
 Proof. exact @isort_stable. Qed.
+
+(* the merge sort the interpreter runs on more than 20 elements (model of src/util/trysort.rs: natural runs from the end,
+   strictly descending runs reversed, extension to 10 elements by insertion, collapse rule on the top four runs, forward
+   and backward merges) and the insertion sort it runs on up to 20 return the reference sort for every total preorder and
+   every input: the model never runs out of fuel and always ends with exactly one run *)
+Theorem C19_merge_sort_model_is_reference_sort : forall (A : Type) (le : A -> A -> bool),
+  (forall a b, le a b = true \/ le b a = true) -> (forall a b c, le a b = true -> le b c = true -> le a c = true) ->
+  forall l, tsort le l = Some (isort le l).
+Proof. exact @tsort_is_isort. Qed.
 
 (* the padding rule of the format-specifier grammar: exactly as wide as asked and never truncated; only fill characters
    are added, sign and body keep their order; a text that fills the width is unchanged *)
@@ -53,6 +62,7 @@ Print Assumptions C19_cmp_transitive.
 Print Assumptions C19_sort_is_permutation.
 Print Assumptions C19_sort_is_ordered.
 Print Assumptions C19_sort_is_stable.
+Print Assumptions C19_merge_sort_model_is_reference_sort.
 Print Assumptions C19_pad_length.
 Print Assumptions C19_pad_shape.
 Print Assumptions C19_pad_noop.
